@@ -490,6 +490,73 @@ func (m *Model) ruleTIMER(r *Results) {
 			r.undecided(rule, "timer stop", "-", "no caller of the function that stops the timer")
 		}
 	}
+	// the open function arms the timer only after the bucket has been registered: a bucket that loses
+	// the registration race is closed, and a timer armed on its private manager before that could
+	// never be stopped (the shutdown routine only knows the registered object)
+	if fn := m.A.OpenFn; fn != nil && m.A.CloneFn != nil {
+		var open ssa.CallInstruction
+		var regs, arms []ssa.CallInstruction
+		// (static calls only: a bound method value handed to a constructor is not run by it)
+		var armsTimerD func(f *ssa.Function, seen map[*ssa.Function]bool) bool
+		armsTimerD = func(f *ssa.Function, seen map[*ssa.Function]bool) bool {
+			if f == nil || seen[f] || !m.inPkg(f) {
+				return false
+			}
+			seen[f] = true
+			hit := false
+			m.eachCall(f, func(c ssa.CallInstruction) {
+				t := c.Common().StaticCallee()
+				if t == nil || hit {
+					return
+				}
+				if _, isGo := c.(*ssa.Go); isGo {
+					return
+				}
+				if t.Pkg != nil && t.Pkg.Pkg.Path() == "time" && (t.Name() == "AfterFunc" || t.Name() == "Reset") {
+					hit = true
+					return
+				}
+				if armsTimerD(t, seen) {
+					hit = true
+				}
+			})
+			return hit
+		}
+		armsTimer := func(f *ssa.Function) bool { return armsTimerD(f, map[*ssa.Function]bool{}) }
+		m.eachCall(fn, func(c ssa.CallInstruction) {
+			f := c.Common().StaticCallee()
+			if f == nil {
+				return
+			}
+			if f.Pkg != nil && f.Pkg.Pkg.Path() == "database/sql" && f.Name() == "Open" {
+				open = c
+			}
+			if !m.inPkg(f) || c.Parent() != fn {
+				return
+			}
+			if m.reachableLocal(f)[m.A.CloneFn] {
+				regs = append(regs, c)
+			} else if armsTimer(f) {
+				arms = append(arms, c)
+			}
+		})
+		for _, ac := range arms {
+			if open == nil || !(open.Block() == ac.Block() || open.Block().Dominates(ac.Block())) {
+				continue
+			}
+			after := false
+			for _, rg := range regs {
+				// (the registration of the bucket opened here, not the cache lookup before the open)
+				if !(open.Block() == rg.Block() && indexIn(open.Block(), open) < indexIn(rg.Block(), rg) || open.Block() != rg.Block() && open.Block().Dominates(rg.Block())) {
+					continue
+				}
+				if rg.Block() == ac.Block() && indexIn(rg.Block(), rg) < indexIn(ac.Block(), ac) || rg.Block() != ac.Block() && rg.Block().Dominates(ac.Block()) {
+					after = true
+				}
+			}
+			r.check(after, rule, m.declName(fn)+" / timer armed only after registration", m.instrPos(ac), "the open function arms the expiry timer after the registration call", "the open function arms the expiry timer before the bucket is registered: when another opener wins the registration this bucket is closed, but the timer it armed on its own expiry manager keeps running and fires into a store that may already have been shut down and deleted")
+		}
+	}
 	_ = token.ADD
 }
 
